@@ -746,7 +746,7 @@ def auto_reference_obligations(rep):
     import functional_algorithms.targets as T
 
     fnid = ("expr.make_ref", "expr.toidentifier")
-    values = [0.0, -0.0, 1.0, -1.0, 1, -1, 0, 2.0, 0.5, 1.5, -1.5, float("inf"), float("-inf"), 1e-3, 1e300, 3, numpy.float32(0.0), numpy.float32(-0.0), numpy.float32(1.5), numpy.float64(-0.0), numpy.float64(0.1), numpy.float32(0.1), True, False]
+    values = [0.0, -0.0, 1.0, -1.0, 1, -1, 0, 2.0, 0.5, 1.5, -1.5, float("inf"), float("-inf"), float("nan"), numpy.float32("nan"), 1e-3, 1e300, 3, numpy.float32(0.0), numpy.float32(-0.0), numpy.float32(1.5), numpy.float64(-0.0), numpy.float64(0.1), numpy.float32(0.1), True, False]
     bad, n = [], 0
     with warnings.catch_warnings():
         warnings.simplefilter("ignore")
@@ -786,9 +786,45 @@ def auto_reference_obligations(rep):
                             continue  # the two constants denote the same expression (same key): nothing to distinguish
                         # constants of different Python/NumPy type but the same value (0.0 and numpy.float32(0.0)) may share a name:
                         # the nodes then compute the same thing; a shared name is a violation only when the values differ
-                        same_value = numpy.float64(v1).tobytes() == numpy.float64(v2).tobytes()
-                        if nodes[0].ref == nodes[1].ref and nodes[0].key != nodes[1].key and not same_value:
-                            bad.append((tname, kind, repr(v1), repr(v2), "both nodes are named %s" % nodes[0].ref))
+                        same_value = numpy.float64(v1).tobytes() == numpy.float64(v2).tobytes() or (v1 != v1 and v2 != v2)
+                        try:
+                            r0, r1 = nodes[0].ref, nodes[1].ref
+                        except Exception as e:
+                            bad.append((tname, kind, repr(v1), repr(v2), "naming a node raised %r" % (e,)))
+                            continue
+                        if r0 == r1 and nodes[0].key != nodes[1].key and not same_value:
+                            bad.append((tname, kind, repr(v1), repr(v2), "both nodes are named %s" % r0))
+    # names are joined with "_": symbols whose own names contain "_" must not make two different nodes read alike
+    with warnings.catch_warnings():
+        warnings.simplefilter("ignore")
+        for kind in ("hypot", "atan2", "maximum", "add"):
+            for names in ((("a_b", "c"), ("a", "b_c")), (("x_1", "y"), ("x", "1_y" if False else "y_1")), (("p_q_r", "s"), ("p", "q_r_s"))):
+                n += 1
+
+                def f(ctx, *args):
+                    d = dict(zip(allnames, args))
+                    u = getattr(ctx, kind)(d[names[0][0]], d[names[0][1]]) if kind != "add" else d[names[0][0]] + d[names[0][1]]
+                    v = getattr(ctx, kind)(d[names[1][0]], d[names[1][1]]) if kind != "add" else d[names[1][0]] + d[names[1][1]]
+                    return u * u + v * v * ctx.constant(3.0, args[0])
+
+                allnames = list(names[0]) + list(names[1])
+                try:
+                    import inspect
+
+                    f.__signature__ = inspect.Signature([inspect.Parameter("ctx", inspect.Parameter.POSITIONAL_OR_KEYWORD)] + [inspect.Parameter(nm, inspect.Parameter.POSITIONAL_OR_KEYWORD, annotation=float) for nm in allnames])
+                    ctx = fa.Context(paths=[fa.algorithms])
+                    g = ctx.trace(f, *([numpy.float64] * 4))
+                    fn = T.numpy.as_function(g, debug=0)
+                    vals = [3.0, 4.0, 6.0, 8.0]
+                    got = float(fn(*vals))
+                    d = dict(zip(allnames, vals))
+                    ev = {"hypot": math.hypot, "atan2": math.atan2, "maximum": max, "add": lambda p, q: p + q}[kind]
+                    u, v = ev(d[names[0][0]], d[names[0][1]]), ev(d[names[1][0]], d[names[1][1]])
+                    want = u * u + v * v * 3.0
+                    if got != want:
+                        bad.append(("numpy", kind, names, "the emitted function returns %r, the graph evaluates to %r (two nodes printed under one name)" % (got, want)))
+                except Exception as e:
+                    bad.append(("numpy", kind, names, "raised %r" % (e,)))
     rep.add(core.decided("C05/O8/auto-reference-names-distinct", PROP, not bad, functions=fnid, text="%d pairs of nodes that differ only in a constant operand: different expressions get different reference names" % n, detail=dict(bad=[str(b) for b in bad[:8]]), meta=dict(kind="auto-reference-names", bad=[str(b) for b in bad[:4]])))
 
 
